@@ -5338,11 +5338,26 @@ func (a *taggedTemplateArray) equal(other objectImpl) bool {
 	return false
 }
 
+// copyTmplValues makes a copy of the template strings for a new template object: the instruction (and
+// therefore its values and their property descriptors) may be shared between Runtimes, and the script can
+// modify the descriptors (Object.freeze() does, for example).
+func copyTmplValues(src []Value) []Value {
+	values := make([]Value, len(src))
+	for i, v := range src {
+		if prop, ok := v.(*valueProperty); ok {
+			propCopy := *prop
+			v = &propCopy
+		}
+		values[i] = v
+	}
+	return values
+}
+
 func (c *getTaggedTmplObject) exec(vm *vm) {
 	cooked := vm.r.newArrayObject()
-	setArrayValues(cooked, c.cooked)
+	setArrayValues(cooked, copyTmplValues(c.cooked))
 	raw := vm.r.newArrayObject()
-	setArrayValues(raw, c.raw)
+	setArrayValues(raw, copyTmplValues(c.raw))
 
 	cooked.propValueCount = len(c.cooked)
 	cooked.lengthProp.writable = false
